@@ -25,7 +25,7 @@ def main(argv=None):
             mod.run(chk, repo, a.tier)
         except AnalysisError as e:
             # a definite violation found before the analysis broke down still stands
-            if any(not o.ok for o in chk.obligations):
+            if any(o.ok is False for o in chk.obligations):
                 print(f'ANALYSIS-NOTE property={pid}: analysis stopped early: {e}')
                 chk.floors = {}
                 rc = chk.finish()
@@ -35,10 +35,10 @@ def main(argv=None):
         if a.list or a.explain:
             for o in chk.obligations:
                 if a.list or a.explain in o.key:
-                    print(('ok  ' if o.ok else 'FAIL'), o.key, '@', o.loc, '\n      ', o.detail, o.facts or '')
+                    print(('ok  ' if o.ok else 'FAIL' if o.ok is False else 'UNDEC'), o.key, '@', o.loc, '\n      ', o.detail, o.facts or '')
         rc = chk.finish()
         n = len(chk.obligations)
-        print(f'{pid}: {n} obligations, {sum(1 for o in chk.obligations if o.ok)} discharged, '
+        print(f'{pid}: {n} obligations, {sum(1 for o in chk.obligations if o.ok is True)} discharged, {sum(1 for o in chk.obligations if o.ok is None)} undecided, '
               f'tier={a.tier}, repo={repo.root}')
         if rc == 0 and a.tier == 'thorough' and not a.no_liveness and os.environ.get('LSA_NO_LIVENESS') != '1':
             from . import liveness
